@@ -585,7 +585,7 @@ func TestC04(t *testing.T) {
 	r.Rule("rapid state machine over a real Ballotbox: suffrage 1..7 (local a member or not), thresholds {60,67,80,100}, heights 33..36, rounds 0..5; " +
 		"actions Vote(real IsValid ballots: honest/conflicting INIT+ACCEPT, suffrage-confirm with an INIT expel voteproof, ballots carrying expels signed fully/by one/with a foreign signer/expired, " +
 		"foreign and wrong-key signers), runs of the same ballot from k nodes, split votes that end in a draw, Count, SetLastPointFromVoteproof, suffrage lookup found/not-found toggles, concurrent voters; " +
-		"a composite action plays a height that needs several rounds (a suffrage-confirm round that mostly stays unfinished, a drawn walk over later stage points whose votes split into draws or majorities, first votes for a still later stage point, late ballots for earlier points of the height, then the remaining votes; other actions drawn in between; half of the histories open with it); " +
+		"a composite action plays a height that needs several rounds (a suffrage-confirm round that mostly stays unfinished, a drawn walk over later stage points whose votes split between two or three facts into draws or majorities, first votes for a still later stage point, late ballots for earlier points of the height, then the remaining votes; quiet moments and other actions drawn in between; half of the histories open with it); " +
 		"a second phase runs long histories (60 steps, suffrage-confirm-heavy, runs that reach results) so that records are cleaned and recycled; every voteproof received on Voteproof() is judged. non-trivial = history with >=1 counted voteproof and a conflicting ballot, an expel or a concurrent phase; distinct by history")
 	r.Floor(20)
 	r.Assume("every ballot given to Vote satisfies bl.IsValid(networkID) (launch validates before voting)",
